@@ -108,9 +108,12 @@ Definition f_invoke_laters (s : fst) : fst :=
   let s1 := fu_dl (fu_dr s (f_dr s ++ f_dl s)) [] in
   f_drun_loop (length (f_dr s1)) s1.
 
-(* for(this = t->signals; this; this = t->next_sigwatch) { t->next_sigwatch = this->next;
-     if(sigismember(&pending, this->signum)) call } *)
-Fixpoint f_walk (fuel : nat) (this : option Z) (snap : list Z) (s : fst) : option fst :=
+(* seq = ++t->sigwalk_seq;
+   for(this = t->signals; this; this = t->next_sigwatch) { t->next_sigwatch = this->next;
+     if(sigismember(&pending, this->signum) && this->born < seq) call }
+   [bound]: the registration counter when the walk began (a watch with a number >= bound was
+   registered during the walk, fixes/C18-sigwatch-walk-snapshot.patch) *)
+Fixpoint f_walk (fuel : nat) (bound : Z) (this : option Z) (snap : list Z) (s : fst) : option fst :=
   match fuel with
   | O => None
   | S f =>
@@ -121,10 +124,10 @@ Fixpoint f_walk (fuel : nat) (this : option Z) (snap : list Z) (s : fst) : optio
           | None => None
           | Some w =>
               let s1 := fu_cursor s (sgw_after id (f_sgws s)) in
-              let s2 := if memz (g_sig w) snap
+              let s2 := if memz (g_sig w) snap && (g_id w <? bound)
                         then f_actions (femit s1 id KSig EV_FIRE (g_sig w)) (env (g_cb w))
                         else s1 in
-              f_walk f (f_cursor s2) snap s2
+              f_walk f bound (f_cursor s2) snap s2
           end
       end
   end.
@@ -136,7 +139,7 @@ Definition f_sigpipe (fuel : nat) (s : fst) : option fst :=
   if drain_late then
     let snap := f_pend s in
     let s1 := fu_pend s [] in
-    match f_walk fuel (match f_sgws s1 with [] => None | h :: _ => Some (g_id h) end) snap s1 with
+    match f_walk fuel (f_next s1) (match f_sgws s1 with [] => None | h :: _ => Some (g_id h) end) snap s1 with
     | None => None
     | Some s2 => Some (f_arrivals (fu_pipe s2 (f_pipe s2 - Nat.min 32 (f_pipe s2))%nat))
     end
@@ -144,7 +147,7 @@ Definition f_sigpipe (fuel : nat) (s : fst) : option fst :=
     let s0 := f_arrivals (fu_pipe s (f_pipe s - 1)%nat) in
     let snap := f_pend s0 in
     let s1 := fu_pend s0 [] in
-    f_walk fuel (match f_sgws s1 with [] => None | h :: _ => Some (g_id h) end) snap s1.
+    f_walk fuel (f_next s1) (match f_sgws s1 with [] => None | h :: _ => Some (g_id h) end) snap s1.
 
 (* one pass of the poll loop: poll (is the self-pipe readable?), deferred callbacks, then the
    ready IO watch *)
